@@ -27,6 +27,18 @@ def version_tuple(v):
     return tuple(int(x) for x in v.split("."))
 
 
+SPECIAL_EFFECT_ATTRS = {"effect_type", "armour_attack_quantity", "armour_attack_class", "message", "sound_name", "selected_object_ids",
+                        "unused_string_1", "unused_string_2", "item_id", "legacy_location_object_reference"}
+PLAYER_ATTRS = {"source_player", "target_player", "player_color"}
+
+
+def _outcome(fn, *a):
+    try:
+        return "ok", fn(*a)
+    except Exception as e:      # noqa
+        return "error", type(e).__name__
+
+
 class History:
     """applies random operations to a live scenario and records them (the record is the replay)"""
 
@@ -62,14 +74,14 @@ class History:
             for _ in range(rng.choice([0, 0, 1, 2])):
                 self.op_add_condition(tr)
 
-    def op_add_effect(self, tr=None):
+    def op_add_effect(self, tr=None, et=None, rich=False):
         rng = self.rng
         tm = self.scn.trigger_manager
         if tr is None:
             if not tm.triggers:
                 return
             tr = rng.choice(tm.triggers)
-        et = rng.choice(self._effect_types())
+        et = rng.choice(self._effect_types()) if et is None else et
         kw = {}
         r = rng.random()
         if r < 0.3:
@@ -85,6 +97,30 @@ class History:
         from AoE2ScenarioParser.datasets import effects
         from AoE2ScenarioParser.datasets.effects import EffectId
         attrs = set(effects.attributes.get(et, []))
+        if rich or rng.random() < 0.35:
+            # attribute-complete: every integer attribute this effect type has gets a legal value, with the values a sloppy
+            # truthiness / None test confuses (0) and small references over-represented
+            kw = {}
+            for a in sorted(attrs - SPECIAL_EFFECT_ATTRS):
+                if a in PLAYER_ATTRS:
+                    kw[a] = rng.choice([0, 1, 8, rng.randint(0, 8)])
+                elif a == "trigger_id":
+                    if tm.triggers:
+                        kw[a] = rng.choice([0, len(tm.triggers) - 1, rng.randrange(len(tm.triggers))])
+                elif a == "object_attributes":
+                    kw[a] = rng.choice([0, 1, 2, 5, 100])          # not ATTACK / ARMOR: those need the pair (below)
+                elif a in ("area_x1", "area_y1"):
+                    kw[a] = rng.choice([0, 1, 3])
+                elif a in ("area_x2", "area_y2"):
+                    kw[a] = rng.choice([3, 4, 9])
+                else:
+                    kw[a] = rng.choice([0, 0, 1, 2, 17, 255, rng.randint(0, 1000)])
+            if "message" in attrs:
+                kw["message"] = rng.choice(STRS)
+            if "sound_name" in attrs:
+                kw["sound_name"] = rng.choice(STRS)
+            if "selected_object_ids" in attrs and rng.random() < 0.5:
+                kw["selected_object_ids"] = [rng.randint(0, 5000) for _ in range(rng.randint(0, 3))]
         if et == int(EffectId.SCRIPT_CALL):
             kw = {}                    # no XS code: the save would start the external xs-check binary (not runnable here)
         if "armour_attack_class" in attrs and rng.random() < 0.85:
@@ -102,17 +138,50 @@ class History:
             tr._add_effect(et)
             self._rec("add_effect", tr.trigger_id, et, [])
 
-    def op_add_condition(self, tr=None):
+    def op_add_condition(self, tr=None, ct=None, rich=False):
         rng = self.rng
         tm = self.scn.trigger_manager
         if tr is None:
             if not tm.triggers:
                 return
             tr = rng.choice(tm.triggers)
-        ct = rng.choice(self._condition_types())
+        ct = rng.choice(self._condition_types()) if ct is None else ct
         kw = rng.choice([{}, dict(quantity=rng.randint(0, 100)), dict(timer=rng.randint(0, 600)), dict(source_player=rng.randint(0, 8), inverted=rng.randint(0, 1))])
-        tr._add_condition(ct, **kw)
+        if rich or rng.random() < 0.35:
+            from AoE2ScenarioParser.datasets import conditions
+            kw = {}
+            for a in sorted(set(conditions.attributes.get(ct, [])) - {"condition_type", "xs_function", "unit_ai_action"}):
+                if a in ("source_player", "target_player"):
+                    kw[a] = rng.choice([0, 1, 8, rng.randint(0, 8)])
+                elif a in ("area_x1", "area_y1"):
+                    kw[a] = rng.choice([0, 1, 3])
+                elif a in ("area_x2", "area_y2"):
+                    kw[a] = rng.choice([3, 4, 9])
+                elif a == "inverted":
+                    kw[a] = rng.randint(0, 1)
+                else:
+                    kw[a] = rng.choice([0, 0, 1, 2, 17, 255, rng.randint(0, 1000)])
+        try:
+            tr._add_condition(ct, **kw)
+        except Exception:
+            kw = {}
+            tr._add_condition(ct)
         self._rec("add_condition", tr.trigger_id, ct, sorted(kw))
+
+    def populate(self, per_trigger=12):
+        """one attribute-complete effect of EVERY effect type and one condition of every condition type of this version,
+        spread over new triggers (the directed counterpart of the random operations)"""
+        tm = self.scn.trigger_manager
+        ets, cts = self._effect_types(), self._condition_types()
+        k = 0
+        while k < max(len(ets), len(cts)):
+            tr = tm.add_trigger(f"populated {k}")
+            self._rec("add_trigger", tr.trigger_id)
+            for et in ets[k:k + per_trigger]:
+                st, e = _outcome(self.op_add_effect, tr, et, True)
+            for ct in cts[k:k + per_trigger]:
+                st, e = _outcome(self.op_add_condition, tr, ct, True)
+            k += per_trigger
 
     def op_remove_trigger(self):
         tm = self.scn.trigger_manager
